@@ -330,3 +330,31 @@ V2("C08", "P-count-memo-copied-reset", [('toasty/study.py', '    def __init__(se
 # the liveness check moved into the try of the polling loop (round-3 seed C19-p1): fine while the handler cannot catch what it raises
 V("C19", "P-check-inside-try", PYR, '                try:\n                    pos = done_queue.get(True, timeout=1)\n                except (OSError, ValueError, Empty):\n                    # OSError or ValueError => queue closed. This signal seems not to\n                    # cross multiprocess lines, though. If a worker died, the tile\n                    # that it was processing will never be reported as done.\n                    check_workers(workers, done_event)\n                    continue\n', '                try:\n                    check_workers(workers, done_event)\n                    pos = done_queue.get(True, timeout=1)\n                except (OSError, ValueError, Empty):\n                    continue\n', "HOLDS", note="check_workers raises Exception, the handler catches OSError/ValueError/Empty only")
 V2("C19", "check-inside-try-swallowed", [('toasty/pyramid.py', '                try:\n                    pos = done_queue.get(True, timeout=1)\n                except (OSError, ValueError, Empty):\n                    # OSError or ValueError => queue closed. This signal seems not to\n                    # cross multiprocess lines, though. If a worker died, the tile\n                    # that it was processing will never be reported as done.\n                    check_workers(workers, done_event)\n                    continue\n', '                try:\n                    check_workers(workers, done_event)\n                    pos = done_queue.get(True, timeout=1)\n                except (OSError, ValueError, Empty):\n                    continue\n'), ('toasty/par_util.py', '            raise Exception(\n                f"a worker process failed (exit code {w.exitcode}); see its error message above"\n            )', '            raise ChildProcessError(\n                f"a worker process failed (exit code {w.exitcode}); see its error message above"\n            )')], "C19.R2", note="check_workers now raises an OSError subclass which the polling handler swallows")
+
+# ---------------------------------------------------------------- round-6 premises (both directions)
+CLI = "toasty/cli.py"
+V("C03", "cancel-join-thread", TRANS, "    queue = mp.Queue(maxsize=16 * parallel)\n", "    queue = mp.Queue(maxsize=16 * parallel)\n    queue.cancel_join_thread()\n", "C03.R1")
+V("C07", "coarse-grid-pixel-centres", SAMP, "        coarse_idx1 = np.linspace(0.5, naxis1 + 0.5, N_COARSE)", "        coarse_idx1 = np.linspace(1, naxis1, N_COARSE)", "C07.R6")
+V("C07", "P-coarse-grid-respelled", SAMP, "        coarse_idx1 = np.linspace(0.5, naxis1 + 0.5, N_COARSE)", "        coarse_idx1 = np.linspace(0.5, 0.5 + naxis1, N_COARSE)", "HOLDS")
+V("C08", "save-nan-to-num", IMG, "            np.save(path_or_stream, self.asarray())", "            np.save(path_or_stream, np.nan_to_num(self.asarray()))", "C08.R3")
+V("C15", "save-nan-to-num", IMG, "            np.save(path_or_stream, self.asarray())", "            np.save(path_or_stream, np.nan_to_num(self.asarray()))", "C15.R5")
+V("C15", "save-fits-astype", IMG, "            arr = self.asarray()\n\n            # Avoid annoying", "            arr = self.asarray().astype(np.float32)\n\n            # Avoid annoying", "C15.R5")
+V("C15", "P-save-contiguous", IMG, "            np.save(path_or_stream, self.asarray())", "            np.save(path_or_stream, np.ascontiguousarray(self.asarray()))", "HOLDS")
+V("C08", "P-save-contiguous", IMG, "            np.save(path_or_stream, self.asarray())", "            np.save(path_or_stream, np.ascontiguousarray(self.asarray()))", "HOLDS")
+V("C09", "descs-reversed", MTAN, "        return self  # chaining convenience", "        self._descs.reverse()\n        return self  # chaining convenience", "C09.R8")
+V("C09", "descs-filtered", MTAN, "            self._descs.append(mtdesc)\n", "            if mtdesc.crxmax > mtdesc.crxmin:\n                self._descs.append(mtdesc)\n", "C09.R8")
+V("C09", "P-descs-copied", MTAN, "        return self  # chaining convenience", "        self._descs = list(self._descs)\n        return self  # chaining convenience", "HOLDS")
+V("C16", "delete-lonpole", IMG, "    # Here's what we need to flip:\n", "    del h[\"LONPOLE\"]\n\n    # Here's what we need to flip:\n", "C16.R1")
+V("C19", "join-before-raise", PAR, "                done_event.set()\n\n            raise Exception(", "                done_event.set()\n\n            w.join()\n            raise Exception(", "C19.R6")
+V("C19", "P-join-with-timeout-before-raise", PAR, "                done_event.set()\n\n            raise Exception(", "                done_event.set()\n\n            w.join(1)\n            raise Exception(", "HOLDS")
+V("C20", "search-needs-3-axes", COLL, "                            and len(hdu.shape) > 1\n", "                            and len(hdu.shape) > 2\n", "C20.R1")
+V("C20", "search-accepts-1d", COLL, "                            and len(hdu.shape) > 1\n", "                            and len(hdu.shape) >= 1\n", "C20.R1")
+V("C20", "P-search-ge-2", COLL, "                            and len(hdu.shape) > 1\n", "                            and len(hdu.shape) >= 2\n", "HOLDS")
+V("C20", "P-search-not-lt-2", COLL, "                            and len(hdu.shape) > 1\n", "                            and not len(hdu.shape) < 2\n", "HOLDS")
+V("C20", "cli-paths-sorted", CLI, "    coll = CollectionLoader.create_from_args(settings).load_paths(settings.paths)", "    coll = CollectionLoader.create_from_args(settings).load_paths(sorted(settings.paths))", "C20.R4")
+V("C20", "P-cli-paths-listed", CLI, "    coll = CollectionLoader.create_from_args(settings).load_paths(settings.paths)", "    coll = CollectionLoader.create_from_args(settings).load_paths(list(settings.paths))", "HOLDS")
+V("C18", "refresh-accepts-thumb", PCLI, "        if mgr._pipeio.check_exists(uniq_id, \"index.wtml\"):", "        if mgr._pipeio.check_exists(uniq_id, \"index.wtml\") or mgr._pipeio.check_exists(uniq_id, \"thumb.jpg\"):", "C18.R5")
+V2("C17", "index-with-place-after-imgset", [(BLD, "            folder.children = [self.imgset]\n", "            folder.children = [self.imgset]\n            if add_place_for_toast:\n                folder.children.append(self.place)\n"),
+                                             (BLD, "        if self.imgset.projection == ProjectionType.TOAST and not add_place_for_toast:", "        if self.imgset.projection == ProjectionType.TOAST:"),
+                                             (FTIL, "                self.builder.place.foreground_image_set = item\n", "                self.builder.place.foreground_image_set = item\n                break\n")], "C17.R5")
+V("C17", "P-loader-break-after-place", FTIL, "                self.builder.imgset = item.foreground_image_set\n", "                self.builder.imgset = item.foreground_image_set\n                break\n", "HOLDS", note="each written list has one child")
